@@ -189,7 +189,7 @@ def run_item(item, seed, tier):
             _abstract_checks(ctx, item["env"], e)
         return ctx.result()
     res = histprop.run_item(PROPERTY, item, seed, Mon, max_len=60, setup=_static_checks,
-                            per_episode=_per_episode)
+                            per_episode=_per_episode, deep=True)
     if item["env"] == "MultiCVRP":
         ctx = Ctx(PROPERTY, item)
         with ctx.guard(item["env"], {"env": item["env"], "entry": item["entry"], "stage": "extreme"}):
